@@ -137,7 +137,7 @@ fn check_country(r: &mut Report, blocks: &[Block], h: u32, reg: &str, full: bool
 
 pub fn run(a: &Args, r: &mut Report) {
     r.exhaustive = true;
-    r.rule = "exhaustive: tail() on every address 0..2^24 (shard 0, with a registration->address map for injectivity) plus out-of-range 32-bit values; every returned registration is judged against an Annex 7 mark table and against the registration pattern of the most specific address block in data/patterns.json; aircraft_information() on every address with a registration (thorough) or 1/8 of them (quick). distinct_nontrivial = number of distinct addresses that yield a registration".into();
+    r.rule = "exhaustive: tail() on every address 0..2^24 (shard 0, with a registration->address map for injectivity) plus out-of-range 32-bit values (edges of 2^24, 2^31 and 2^32, a prime-stride sweep of the whole 32-bit space, every other top byte over addresses that have a registration, uniformly random values); every returned registration is judged against an Annex 7 mark table and against the registration pattern of the most specific address block in data/patterns.json; aircraft_information() on every address with a registration (thorough) or 1/8 of them (quick). distinct_nontrivial = number of distinct addresses that yield a registration".into();
     r.assumptions.push("data/patterns.json start/end/country/pattern entries are the address-block table of the property; the nationality marks of the 21 mapped states are taken from ICAO Annex 7".into());
     let blocks = load_blocks();
     if let Some(p) = &a.replay {
@@ -193,9 +193,47 @@ pub fn run(a: &Args, r: &mut Report) {
         r.class_n("injectivity:addresses-scanned", 1 << 24);
         // out-of-range values: totality only (and they must not collide with an in-range registration)
         let mut rng = Rng::new(a.seed, 0, "C14");
-        let n = if a.thorough() { 20_000_000 } else { 1_000_000 };
+        // (a) the values just above 2^24 and just below 2^32, (b) uniformly random 32-bit values, (c) a prime-stride sweep
+        // of the whole 32-bit space, (d) addresses that have a registration with every other top byte (aliases of the
+        // 24-bit arithmetic), (e) the neighbourhood of 2^31 where signed arithmetic changes sign
+        let n_random: u64 = if a.thorough() { 20_000_000 } else { 600_000 };
+        let stride: u64 = if a.thorough() { 211 } else { 8191 };
+        let with_reg: Vec<u32> = {
+            let mut v: Vec<u32> = seen.values().copied().collect();
+            v.sort();
+            let k = (v.len() / if a.thorough() { 4096 } else { 256 }).max(1);
+            v.into_iter().step_by(k).collect()
+        };
+        let mut probes: Vec<u32> = vec![];
+        for i in 0..65536u32 {
+            probes.push((1u32 << 24) + i);
+            probes.push(u32::MAX - i);
+            probes.push((1u32 << 31).wrapping_add(i));
+            probes.push((1u32 << 31) - 1 - i);
+        }
+        let mut x: u64 = 1 << 24;
+        while x <= u32::MAX as u64 {
+            probes.push(x as u32);
+            x += stride;
+        }
+        for a24 in &with_reg {
+            for hb in 1..=255u32 {
+                probes.push((hb << 24) | a24);
+            }
+        }
+        r.class_n("out-of-range:stride-sweep", ((1u64 << 32) - (1 << 24)) / stride);
+        r.class_n("out-of-range:top-byte-aliases", with_reg.len() as u64 * 255);
+        let n = probes.len() as u64 + n_random;
         for i in 0..n {
-            let h = if i < 65536 { (1u32 << 24) + i as u32 } else if i < 131072 { u32::MAX - (i as u32 - 65536) } else { (1 << 24) | (rng.next() as u32) };
+            let h = if (i as usize) < probes.len() {
+                probes[i as usize]
+            } else {
+                let x = rng.next() as u32;
+                if x < (1 << 24) { x | (1 << 24) | ((rng.next() as u32) << 24) } else { x }
+            };
+            if h < (1 << 24) {
+                continue;
+            }
             r.evaluations += 1;
             match guarded(|| tail(h)) {
                 Err((loc, msg)) => r.violation(&format!("C14:panic:tail:{}", short_loc(&loc)), format!("tail({h:#x}) panicked: {}", msg_class(&msg)), json!({"hexid": h})),
